@@ -45,6 +45,21 @@ unsafe impl GlobalAlloc for Counting {
 #[global_allocator]
 static A: Counting = Counting;
 
+// ---------- kind of the injected I/O errors (ekind=other|eof|wouldblock|invalid|pipe); the model knows only "an I/O error" ----------
+static FAULT_KIND: std::sync::atomic::AtomicU8 = std::sync::atomic::AtomicU8::new(0);
+fn fault_kind() -> io::ErrorKind {
+    match FAULT_KIND.load(Ordering::Relaxed) {
+        1 => io::ErrorKind::UnexpectedEof,
+        2 => io::ErrorKind::WouldBlock,
+        3 => io::ErrorKind::InvalidData,
+        4 => io::ErrorKind::BrokenPipe,
+        _ => io::ErrorKind::Other,
+    }
+}
+fn set_fault_kind(name: &str) {
+    FAULT_KIND.store(match name { "eof" => 1, "wouldblock" => 2, "invalid" => 3, "pipe" => 4, _ => 0 }, Ordering::Relaxed);
+}
+
 // ---------- fragmenting, failing reader (the model's `src`) ----------
 struct FragReader {
     data: Vec<u8>,
@@ -65,7 +80,7 @@ impl BufRead for FragReader {
             let k = self.refills;
             self.refills += 1;
             if self.fail_at == Some(k) {
-                return Err(io::Error::new(io::ErrorKind::Other, "injected read fault"));
+                return Err(io::Error::new(fault_kind(), "injected read fault"));
             }
             let want = if self.sizes.is_empty() { u64::MAX } else { self.sizes[(k % self.sizes.len() as u64) as usize] };
             let want = std::cmp::max(1, want);
@@ -120,7 +135,7 @@ impl Write for SharedSink {
         let k = s.calls;
         s.calls += 1;
         if s.wfail == Some(k) {
-            return Err(io::Error::new(io::ErrorKind::Other, "injected write fault"));
+            return Err(io::Error::new(fault_kind(), "injected write fault"));
         }
         let lim = if s.sizes.is_empty() { u64::MAX } else { s.sizes[(k % s.sizes.len() as u64) as usize] };
         let n = std::cmp::min(buf.len() as u64, std::cmp::max(1, lim)) as usize;
@@ -130,7 +145,7 @@ impl Write for SharedSink {
     fn flush(&mut self) -> io::Result<()> {
         let mut s = self.0.borrow_mut();
         if s.ffail {
-            return Err(io::Error::new(io::ErrorKind::Other, "injected flush fault"));
+            return Err(io::Error::new(fault_kind(), "injected flush fault"));
         }
         s.flushes += 1;
         Ok(())
@@ -289,6 +304,7 @@ fn run_case(line: &str) -> String {
     }
     let op = toks[0];
     let m = kv(&toks[1..]);
+    set_fault_kind(get(&m, "ekind", "other"));
     let data = || unhex(get(&m, "in", "-"));
     match op {
         "lzma_dec" => {
